@@ -15,7 +15,9 @@ def run(ctx):
     ctx.rule = ("strings over the expression alphabet: every string of ≤ N symbols (full 15-symbol set for short strings, 9-symbol core "
                 "for longer ones) × every truth assignment of its identifiers, a hand corpus, seeded random well-formed / mutated / "
                 "raw strings ≤ 60 symbols with Unicode identifiers, and generated tasks (mixed-case names, markers, function "
-                "attributes) × -k / -m / after expressions through KeywordMatcher / MarkMatcher / select_by_*; non-trivial = the "
+                "attributes) × -k / -m / after expressions through KeywordMatcher / MarkMatcher / select_by_*, and whole projects whose tasks "
+                "carry after strings (2–4 tasks sharing one string, self-matching declarers; real DAG construction under several task orders "
+                "and real builds under several PYTHONHASHSEEDs: every task follows exactly the tasks its formula matches, minus itself); non-trivial = the "
                 "expression compiles, has ≥ 1 identifier and ≥ 1 blank or parenthesis (expressions), a matcher answers True or a "
                 "selection is a proper non-empty subset (tasks); distinct by the string / (tasks, mode, expression)")
     msg = expr_api.check_unicode_assumption()
@@ -41,6 +43,14 @@ def run(ctx):
     cases = expr_api.random_task_cases(rng, ncases)
     chunk = max(100, len(cases) // 12 + 1)
     jobs.append(("tasks", [{"kind": "tasks", "cases": cases[i:i + chunk]} for i in range(0, len(cases), chunk)]))
+    # `after="<expr>"` over whole projects: several tasks sharing one string, self-matching declarers, several task orders (API level,
+    # real create_dag_from_session) and several PYTHONHASHSEEDs (end to end, real pytask.build)
+    acases = expr_api.after_cases(rng, ctx.scale(500, 8000))
+    chunk = max(60, len(acases) // 8 + 1)
+    jobs.append(("after", [{"kind": "after", "cases": acases[i:i + chunk]} for i in range(0, len(acases), chunk)]))
+    ecases = expr_api.after_e2e_cases(rng, ctx.scale(12, 120), 3 if thorough else 2)
+    chunk = max(2, len(ecases) // 8 + 1)
+    jobs.append(("after-e2e", [{"kind": "after_e2e", "cases": ecases[i:i + chunk]} for i in range(0, len(ecases), chunk)]))
     flat = [(tag, j) for tag, js in jobs for j in js]
     # biggest jobs first so the pool stays busy
     results = expr_api.run_jobs([j for _, j in flat], ctx.use_model)
@@ -54,12 +64,17 @@ def run(ctx):
                                      f"{expr_api.SYMBOLS_CORE!r}, each under all truth assignments of its identifiers")
     ctx.extra["random_strings"] = nrand
     ctx.extra["task_cases"] = len(cases)
+    ctx.extra["after_projects"] = {"api": len(acases), "end_to_end": len(ecases)}
 
 
 def replay(ctx, obj):
     inp = obj["input"]
     if inp.get("layer") == "tasks":
         job = {"kind": "tasks", "cases": [inp["case"]]}
+    elif inp.get("layer") == "after":
+        job = {"kind": "after", "cases": [inp["case"]]}
+    elif inp.get("layer") == "after-e2e":
+        job = {"kind": "after_e2e", "cases": [inp["case"]]}
     else:
         job = {"kind": "list", "strings": [inp["s"]]}
     r = expr_api.run_jobs([job], ctx.use_model)[0]
